@@ -301,6 +301,13 @@ func driveB(run *hx.Run, model *hx.Model, u *universe) {
 // reported once each (shrunk) and counted afterwards.
 func handleB(run *hx.Run, model *hx.Model, u *universe, name string, script []string, known map[string]int) caseOut {
 	o := runCaseB(run, model, u, name, script, true)
+	if o.what == whatBlocked {
+		// a verdict that rests on elapsed time has to show again on an immediate re-run (see drive)
+		if o2 := runCaseB(run, model, u, name+"/again", script, false); o2.what != whatBlocked {
+			run.Count("timing-dependent verdict not reproduced: " + whatBlocked)
+			o = o2
+		}
+	}
 	if o.what == "" && o.agree {
 		return o
 	}
